@@ -156,6 +156,10 @@ func ToBytes(i interface{}) []byte {
 		return v
 	case Bs:
 		return v.ToBytes()
+	case HitGroup:
+		var buf [8]byte
+		binary.LittleEndian.PutUint64(buf[:], v.Hit())
+		return buf[:]
 	default:
 		panic(fmt.Sprintf("unsupported.type.for.slot:%+v", reflect.TypeOf(i)))
 	}
